@@ -66,6 +66,11 @@ SCENARIOS = {
                    # a priority of its own (not the assignment's): its place among the
                    # other proid.web instances moves when the assignment priority changes
                    dict(name='proid.web', demand=[512, 0, 512], affinity='web', priority=5,
+                        data_retention_timeout='1s'),
+                   # fits no server, sorts first in its allocation
+                   dict(name='proid.web', demand=[65536, 64, 65536], affinity='web', priority=50),
+                   # a name that another instance's name is a prefix of
+                   dict(name='proid.web-x', demand=[512, 0, 512], affinity='webx',
                         data_retention_timeout='1s')],
         groups={'proid.g1': 3},
         apps=['a1', 'a2', 'a3', 'a4']),
@@ -116,6 +121,11 @@ SCENARIOS['dup']['sprofiles'] = list(SCENARIOS['base']['sprofiles']) + [
     dict(cap=[4096, 4, 4096], label='_default', traits=['x9']),
     dict(cap=[4096, 4, 4096], label='pB', traits=['x9', 't2'])]
 SCENARIOS['dup']['server_init'] = {'s1': 6, 's2': 3, 's3': 7}
+SCENARIOS['dup']['aprofiles'] = list(SCENARIOS['base']['aprofiles']) + [
+    dict(name='other.app', demand=[512, 1, 512], affinity='app', traits=['x9'], data_retention_timeout='2s')]
+SCENARIOS['dup']['allocsets'] = list(SCENARIOS['base']['allocsets']) + [
+    [_alloc('proid/x', '_default', [('proid.web*', 1)], traits=['x9']),
+     _alloc('proid/z', 'pB', [('proid.db*', 5)], traits=['x9'])]]
 
 
 def gen_hetero(scn, rng):
